@@ -70,10 +70,10 @@ func hasSideEffects(c syntax.Callable) bool {
 			}
 			if sc := c.Callables.Table[call.Id]; sc == nil {
 				panic(fmt.Sprint("unknown callable ", call.DecId))
-			} else if p, ok := sc.(*syntax.Pipeline); ok {
-				if hasSideEffects(p) {
-					return true
-				}
+			} else if hasSideEffects(sc) {
+				// A stage with retained outputs, or a sub-pipeline
+				// which has side effects.
+				return true
 			}
 		}
 	}
